@@ -66,6 +66,7 @@ type Spec struct {
 	Close       bool   `json:"close,omitempty"`
 	ID          string `json:"id"`
 	TENameMixed bool   `json:"temix,omitempty"`
+	TrName      string `json:"trname,omitempty"` // trailer field name (default X-Tr)
 }
 
 type Expect struct {
@@ -216,8 +217,12 @@ func Build(s Spec) ([]byte, Expect) {
 			w.WriteString("Expect: 100-continue\r\n")
 			ex.Expect100 = true
 		}
+		trName := s.TrName
+		if trName == "" {
+			trName = "X-Tr"
+		}
 		if s.Framing == FChunkedTrailer {
-			w.WriteString("Trailer: X-Tr\r\n")
+			w.WriteString("Trailer: " + trName + "\r\n")
 		}
 		if s.TENameMixed {
 			w.WriteString("tRaNsFeR-eNcOdInG: chunked\r\n\r\n")
@@ -238,8 +243,8 @@ func Build(s Spec) ([]byte, Expect) {
 		}
 		w.WriteString("0\r\n")
 		if s.Framing == FChunkedTrailer {
-			w.WriteString("X-Tr: tv\r\n")
-			ex.Trailers = append(ex.Trailers, httpref.Header{Name: "X-Tr", Value: "tv"})
+			w.WriteString(trName + ": tv\r\n")
+			ex.Trailers = append(ex.Trailers, httpref.Header{Name: trName, Value: "tv"})
 		}
 		w.WriteString("\r\n")
 	default:
